@@ -236,6 +236,15 @@ func ruleC10(p *Prog, r *Res) {
 			info := f.Pkg.TypesInfo
 			switch s := x.(type) {
 			case *ast.RangeStmt:
+				// `for _, idx := range slices.Backward(indexes)`: newest first by construction
+				if c, ok := ast.Unparen(s.X).(*ast.CallExpr); ok && len(c.Args) == 1 {
+					if fn := p.Callee(f.Pkg, c); fn != nil && fn.FullName() == "slices.Backward" {
+						if t := info.TypeOf(c.Args[0]); t != nil && types.TypeString(t, nil) == readerSliceT {
+							nc++
+							r.Ok(ruleC, fmt.Sprintf("%s range slices.Backward(%s)", key, types.ExprString(c.Args[0])), p.Pos(s), "descending by construction")
+						}
+					}
+				}
 				if t := info.TypeOf(s.X); t != nil && types.TypeString(t, nil) == readerSliceT {
 					// a range over the whole stack in ascending order: only fine when every element is visited
 					// without early exit on a hit (e.g. ReferenceTime's min) — here: flag when the body returns/breaks on a hit
@@ -253,8 +262,21 @@ func ruleC10(p *Prog, r *Res) {
 						}
 						return true
 					})
-					// the superseding filter `for _, idx2 := range v.indexes[i:]` iterates newer readers only: membership test, order irrelevant
-					if _, isSub := ast.Unparen(s.X).(*ast.SliceExpr); isSub {
+					// the superseding filter `for _, idx2 := range v.indexes[i:]` iterates newer readers only: a membership test
+					// (map lookups on the element), order irrelevant. A first-hit traversal fetches stream data from the element.
+					fetches := false
+					ast.Inspect(s.Body, func(y ast.Node) bool {
+						if c, ok := y.(*ast.CallExpr); ok {
+							if fn := p.Callee(f.Pkg, c); fn != nil {
+								switch fn.Name() {
+								case "StreamByID", "streamByIndex", "AllStreams", "searchStreams", "Data", "DataForSearch":
+									fetches = true
+								}
+							}
+						}
+						return true
+					})
+					if !fetches {
 						return true
 					}
 					nc++
